@@ -311,7 +311,10 @@ struct queuing_rw_mutex_impl {
             // The second approach seems better on x86 because it does not involve interlocked operations.
             // Therefore, we read next->my_state with acquire while it is not required for else branch to get the 
             // release sequence.
-            if( next->my_state.load(std::memory_order_acquire)==STATE_UPGRADE_WAITING ) {
+            // A successor that is already STATE_UPGRADE_LOSER (this writer downgraded and upgraded again in between)
+            // is still inside its upgrade waiting loop and may mark its my_prev as in use, so it needs the same
+            // responsibility transition.
+            if( next->my_state.load(std::memory_order_acquire) & STATE_COMBINED_UPGRADING ) {
                 // the next waiting for upgrade means this writer was upgraded before.
                 acquire_internal_lock(s);
                 // Responsibility transition, the one who reads uncorrupted my_prev will do release.
@@ -324,7 +327,7 @@ struct queuing_rw_mutex_impl {
                 unblock_or_wait_on_internal_lock(s, get_flag(tmp));
             } else {
                 // next->state cannot be STATE_UPGRADE_REQUESTED
-                __TBB_ASSERT( next->my_state.load(std::memory_order_relaxed) & (STATE_COMBINED_WAITINGREADER | STATE_WRITER | STATE_UPGRADE_LOSER), "unexpected state" );
+                __TBB_ASSERT( next->my_state.load(std::memory_order_relaxed) & (STATE_COMBINED_WAITINGREADER | STATE_WRITER), "unexpected state" );
                 __TBB_ASSERT( !( next->my_prev.load(std::memory_order_relaxed) & FLAG ), "use of corrupted pointer!" );
                 // Guarantee that above store of 2 into next->my_going happens-before resetting of next->my_prev
                 tricky_pointer::store(next->my_prev, nullptr, std::memory_order_release);
